@@ -13,7 +13,18 @@ def main():
     for pid in ids:
         mod = importlib.import_module(f"harness.props.{pid.lower()}")
         if not hasattr(mod, "selftest"):
-            print(f"selftest {pid}: (none defined)")
+            # generic binding test: the check is run with ONE logged observation of its recorded traces altered
+            # (core.corrupt_one_observation); the trace specification must reject it (exit 1), and a machinery error counts too
+            import subprocess
+            import sys
+            env = dict(os.environ, VERIF_SELFTEST_CORRUPT="1", DF_VERIF_NO_DF_STAGE="1", DF_VERIF_REPO=os.environ.get("DF_VERIF_REPO", "/repo"),
+                       VERIF_SELFTEST_EVIDENCE="skip")
+            p = subprocess.run([os.path.join(root, "check"), pid, "--tier", "quick"], capture_output=True, text=True, env=env)
+            keys = [l.strip().split(":")[0] + ":" + l.strip().split(":")[1][:60] for l in p.stdout.splitlines() if l.startswith("  trace:") or "Trace" in l and l.startswith("  ")]
+            ok = p.returncode in (1, 2)
+            print(f"selftest {pid}: recorded traces with one altered observation rejected (exit {p.returncode}{'; ' + keys[0] if keys else ''}): {'ok' if ok else 'FAILED'}")
+            if not ok:
+                rc = 1
             continue
         ctx = core.Ctx(pid, "quick", 4242)
         try:
